@@ -447,15 +447,18 @@ Local Open Scope string_scope.
 """
 
 # unit -> (property, source file, [(Coq name, qualified function name, optional (first, last) statement markers)])
-UNITS = {
-    "C13Src": ("C13", "src/pydrobert/torch/_dataloaders.py", [
-        ("aes_init", "AbstractEpochSampler.__init__", None),
-        ("aes_len", "AbstractEpochSampler.__len__", None),
-        ("aes_get_samples_for_epoch", "AbstractEpochSampler.get_samples_for_epoch", None),
-        ("aes_iter", "AbstractEpochSampler.__iter__", None),
-        ("ess_order", "EpochSequentialSampler.get_samples_for_epoch_ignoring_distributed", None),
-    ]),
-}
+# one JSON file per unit in harness/py2coq/units/: {"property", "source", "functions": [[coqname, qualname, null | [first, last]]]}
+def _load_units():
+    import json
+    out = {}
+    for f in sorted((Path(__file__).resolve().parent / "units").glob("*.json")):
+        d = json.loads(f.read_text())
+        out[f.stem] = (d["property"], d["source"],
+                       [(c, q, tuple(m) if m else None) for c, q, m in d["functions"]])
+    return out
+
+
+UNITS = _load_units()
 
 
 def translate_unit(repo, unit):
